@@ -20,7 +20,7 @@ Here is a semantic property that virocon is supposed to satisfy (JSON record):
 Task: make ONE small, realistic change to the library source under {wt}/virocon that BREAKS this property, while
  (1) the code still imports and the EXISTING test suite still passes unchanged (run at least the test files that touch the code you changed with `cd {wt} && /venv/bin/python -m pytest -q -p no:cacheprovider tests/<file>.py`, and before you finish the whole suite once: `cd {wt} && /venv/bin/python -m pytest -q -p no:cacheprovider --timeout=900` — it takes 3-8 minutes; `tests/test_workflows.py::test_v_hs_hd_contour` fails already without your change because a dataset file is empty, ignore that one);
  (2) the bug needs something SPECIFIC to manifest — a particular kind of input, an unusual but legitimate option combination, a multi-step sequence of operations, a boundary value, a tie, an ordering, or two sites that each look fine alone — NOT something ordinary use or the existing tests would expose at once. Think of the kind of slip a tired maintainer makes in a refactoring: an off-by-one, `<` for `<=`, a swapped index or column, a stale variable, a dropped normalisation or copy, a wrong default, an edge case handled for 2-D but not 3-D. The change should look plausible in code review (no comments announcing it, no dead code). Prefer a change in the code the property's anchors point to.
- (3) you write a small demonstration program `{wt}/demo_{pid}.py` that uses only virocon's public behaviour (plus numpy/scipy), is deterministic (fix seeds), runs in under 2 minutes, exits 0 and prints PASS on the ORIGINAL code and exits 1 and prints FAIL (with the concrete numbers that show the property is violated) on your CHANGED code. Verify both: run it with your change, then `git stash`, run it again, `git stash pop`.
+ (3) you write a small demonstration program `{wt}/demo_{pid}.py` that uses only virocon's public behaviour (plus numpy/scipy), is deterministic (fix seeds), runs in under 2 minutes, exits 0 and prints PASS on the ORIGINAL code and exits 1 and prints FAIL (with the concrete numbers that show the property is violated) on your CHANGED code. Verify both: run it with your change, then save your diff (`git diff -- virocon > patch.diff`), reverse it (`git apply -R patch.diff`), run the demo again, and re-apply (`git apply patch.diff`). Do NOT use `git stash` (the stash is shared between all worktrees of the repository and other people are working in theirs).
 
 Deliver, in {wt}:
   - `patch.diff`  : output of `git diff -- virocon` (only library source, applies with `git apply` to the repository HEAD);
